@@ -20,7 +20,7 @@ type C08Case struct {
 	Family string   `json:"family"`
 	Patch  string   `json:"patch"`
 	Files  []string `json:"files"`
-	CLI    string   `json:"cli,omitempty"` // "", "p", "stdin"
+	CLI    string   `json:"cli,omitempty"`   // "", "p", "stdin"
 	Flags  []string `json:"flags,omitempty"` // further command-line flags (CLI cases)
 }
 
